@@ -96,6 +96,20 @@ def jobs_for(tier, rnd):
                     d = f'start = [{G.render(x, mode)}, Y]\nY = {G.render(y, mode)}\n'
                     jobs.append((gid, d, TXC, {'bytes': mode == 'bytes', 'stratum': 'case-flavours'}))
                     gid += 1
+    # stratum: byte literals of every kind of value (0x00 is falsy, 0xff is the top) in every
+    # restoring context, on inputs over those bytes: a byte literal fails cleanly whatever its value
+    TXB = G.texts('\x00\x01a\xff', 3, extra=('\x00\x00\x00\x00', 'a\x00a\x00', '\xff\x00\xff\x01'))
+    for v in (0x00, 0x01, 0x7f, 0xff):
+        z = ('byte', v)
+        others = [('byte', 0x61), ('byte', 0x00), ('rx', '[\\x00-\\xff]')]
+        forms = list(G.unaries(z)) + [('seq', z, z)]
+        for o in others:
+            forms += [('alt', z, o), ('alt', o, z), ('seq', ('opt', z), o), ('seq', ('rep', z, None, None), o), ('longest', z, o),
+                      ('seq', ('expectnot', z), o), ('sep', o, z, (True, False, True, False)), ('alt', ('seq', z, o), ('seq', z, z))]
+        for e in forms:
+            if G.well_formed(e, G.RULES_NULLABLE):
+                jobs.append((gid, G.describe(e, 'bytes'), TXB, {'bytes': True, 'stratum': 'byte-values'}))
+                gid += 1
     return jobs
 
 
